@@ -85,13 +85,31 @@ def _b(x):
 
 
 def mkbool(e, ref=None):
-    """z3 bool -> python bool when it simplifies to a constant, else SxBool"""
-    e = z3.simplify(e)
+    """z3 bool -> python bool when it is syntactically a constant, else SxBool.  (No z3.simplify here:
+    simplifying a small comparison over a huge shared term costs a traversal of that term each time;
+    the path manager simplifies once when the condition is actually decided.)"""
     if z3.is_true(e):
         return True
     if z3.is_false(e):
         return False
     return SxBool(e, ref)
+
+
+def z_and(cs):
+    out = []
+    for c in cs:
+        if isinstance(c, bool):
+            if not c:
+                return z3.BoolVal(False)
+            continue
+        if z3.is_true(c):
+            continue
+        if z3.is_false(c):
+            return z3.BoolVal(False)
+        out.append(c)
+    if not out:
+        return z3.BoolVal(True)
+    return out[0] if len(out) == 1 else z3.And(*out)
 
 
 _NEG = {"lt": "ge", "ge": "lt", "le": "gt", "gt": "le", "eq": "ne", "ne": "eq"}
@@ -220,23 +238,26 @@ class SxInt:
         return a, b
 
     def _tight(self):
-        """narrow [lo, hi] by what branch decisions on this path established for the same term"""
+        """(lo, hi) narrowed by what branch decisions on this path established for the same term.
+        The object itself is not modified (shared objects must keep producing the same terms)."""
+        lo, hi = self.lo, self.hi
         c = core.CTX
         if c is None:
-            return
+            return lo, hi
         d = c.env.get("refined")
         if not d:
-            return
+            return lo, hi
         r = d.get(self.e.get_id())
         if r is None:
-            return
-        lo, hi = r
-        if lo is not None and (self.lo is None or lo > self.lo):
-            self.lo = lo
-        if hi is not None and (self.hi is None or hi < self.hi):
-            self.hi = hi
-        if self.lo is not None and self.hi is not None and self.lo > self.hi:
-            self.hi = self.lo      # infeasible region; the solver keeps the path honest
+            return lo, hi
+        rlo, rhi = r
+        if rlo is not None and (lo is None or rlo > lo):
+            lo = rlo
+        if rhi is not None and (hi is None or rhi < hi):
+            hi = rhi
+        if lo is not None and hi is not None and lo > hi:
+            hi = lo      # infeasible region; the solver keeps the path honest
+        return lo, hi
 
     def at(self, w):
         d = w - self.w
@@ -257,13 +278,13 @@ class SxInt:
         a, b = s._pair(o)
         if a is None:
             return NotImplemented
-        a._tight()
-        b._tight()
+        alo, ahi = a._tight()
+        blo, bhi = b._tight()
         if a.is_bv:
-            lo, hi = a.lo + b.lo, a.hi + b.hi
-            w = max(_fit(lo, hi), 1)
-            return SxInt(a.at(w) + b.at(w), lo, hi)
-        return SxInt(a.e + b.e, _n(a.lo, b.lo, lambda x, y: x + y), _n(a.hi, b.hi, lambda x, y: x + y))
+            lo, hi = alo + blo, ahi + bhi
+            w = max(_fit(lo, hi), a.w, b.w)
+            return SxInt.bv(a.at(w) + b.at(w), lo, hi)
+        return SxInt(a.e + b.e, _n(alo, blo, lambda x, y: x + y), _n(ahi, bhi, lambda x, y: x + y))
     __radd__ = __add__
 
     def __neg__(s):
@@ -320,7 +341,9 @@ class SxInt:
             return NotImplemented
         if o <= 0:
             raise Unsupported("division by non-positive constant")
-        s._tight()
+        tlo, thi = s._tight()
+        if (tlo, thi) != (s.lo, s.hi):
+            s = SxInt(s.e, tlo, thi, s.w)      # same term, narrower known interval (this path only)
         if s.is_bv:
             if s.lo >= 0:
                 if s.hi < o:
@@ -403,32 +426,34 @@ class SxInt:
         a, b = s._pair(o)
         if a is None:
             return NotImplemented
-        a._tight()
-        b._tight()
-        if a.lo is not None and a.hi is not None and b.lo is not None and b.hi is not None:
+        alo, ahi = a._tight()
+        blo, bhi = b._tight()
+        if alo is not None and ahi is not None and blo is not None and bhi is not None:
             if op == "lt":
-                if a.hi < b.lo: return True
-                if a.lo >= b.hi: return False
+                if ahi < blo: return True
+                if alo >= bhi: return False
             elif op == "le":
-                if a.hi <= b.lo: return True
-                if a.lo > b.hi: return False
+                if ahi <= blo: return True
+                if alo > bhi: return False
             elif op == "gt":
-                if a.lo > b.hi: return True
-                if a.hi <= b.lo: return False
+                if alo > bhi: return True
+                if ahi <= blo: return False
             elif op == "ge":
-                if a.lo >= b.hi: return True
-                if a.hi < b.lo: return False
+                if alo >= bhi: return True
+                if ahi < blo: return False
             elif op == "eq":
-                if a.hi < b.lo or a.lo > b.hi: return False
-                if a.lo == a.hi == b.lo == b.hi: return True
+                if ahi < blo or alo > bhi: return False
+                if alo == ahi == blo == bhi: return True
             elif op == "ne":
-                if a.hi < b.lo or a.lo > b.hi: return True
-                if a.lo == a.hi == b.lo == b.hi: return False
+                if ahi < blo or alo > bhi: return True
+                if alo == ahi == blo == bhi: return False
         if a.is_bv:
             w = max(a.w, b.w)
             x, y = a.at(w), b.at(w)
         else:
             x, y = a.e, b.e
+        if x.eq(y):
+            return op in ("eq", "le", "ge")
         e = {"lt": lambda: x < y, "le": lambda: x <= y, "gt": lambda: x > y, "ge": lambda: x >= y,
              "eq": lambda: x == y, "ne": lambda: x != y}[op]()
         ref = None
@@ -567,8 +592,7 @@ class SxInt:
         a = s if bool(s >= 0) else -s
         if a.is_bv:
             # merged term: number of thresholds 2^k that a reaches (no fork per bit)
-            a._tight()
-            top = max(a.hi.bit_length(), 1)
+            top = max(a._tight()[1].bit_length(), 1)
             r = 0
             for k in range(top):
                 r = r + sym_ite(a >= (1 << k), 1, 0)
@@ -706,13 +730,13 @@ def _byte_bv(b):
 
 
 def _elem_eq(a, b):
-    """z3 bool for equality of two byte/char-code elements (python int or SxInt)"""
+    """z3 bool / python bool for equality of two byte/char-code elements (python int or SxInt)"""
     if isinstance(a, int) and isinstance(b, int):
-        return z3.BoolVal(a == b)
+        return a == b
     if isinstance(a, int):
         a, b = b, a
     r = a == b
-    return z3bool(r) if not isinstance(r, bool) else z3.BoolVal(r)
+    return r if isinstance(r, bool) else r.e
 
 
 class SxBytes:
@@ -771,8 +795,7 @@ class SxBytes:
             return z3.BoolVal(False)
         if len(ob) != len(s.bs):
             return z3.BoolVal(False)
-        cs = [_elem_eq(a, b) for a, b in zip(s.bs, ob)]
-        return z3.And(*cs) if cs else z3.BoolVal(True)
+        return z_and(_elem_eq(a, b) for a, b in zip(s.bs, ob))
 
     def __eq__(s, o):
         if not isinstance(o, (bytes, bytearray, SxBytes)):
@@ -876,10 +899,25 @@ class SxChar:
         """code point as SxInt / int"""
         if self.alphabet is None:
             return self.idx
-        r = ord(self.alphabet[-1])
-        for i in range(len(self.alphabet) - 2, -1, -1):
-            r = sym_ite(self.idx == i, ord(self.alphabet[i]), r)
-        return r
+        idx = self.idx
+        lo = max(idx.lo, 0)
+        hi = min(idx.hi, len(self.alphabet) - 1)
+        ords = [ord(c) for c in self.alphabet]
+        if lo == hi:
+            return ords[lo]
+        olo, ohi = min(ords[lo:hi + 1]), max(ords[lo:hi + 1])
+        w = _fit(olo, ohi)
+        if idx.is_bv:
+            ie = idx.e
+            iw = idx.w
+            r = z3.BitVecVal(ords[hi], w)
+            for i in range(hi - 1, lo - 1, -1):
+                r = z3.If(ie == z3.BitVecVal(i, iw), z3.BitVecVal(ords[i], w), r)
+            return SxInt(r, olo, ohi, w)
+        r = z3.IntVal(ords[hi])
+        for i in range(hi - 1, lo - 1, -1):
+            r = z3.If(idx.e == i, z3.IntVal(ords[i]), r)
+        return SxInt(r, olo, ohi, 0)
 
     def possible(self):
         """concrete characters this may be, or None when unbounded"""
@@ -1105,15 +1143,14 @@ class SxStr:
                     else:
                         cs.append(_char_eq(a, b))
                 if ok:
-                    return z3.And(*cs) if cs else z3.BoolVal(True)
+                    return z_and(cs)
             oi = o._resolve()
         else:
             return z3.BoolVal(False)
         si = s._resolve()
         if len(si) != len(oi):
             return z3.BoolVal(False)
-        cs = [_char_eq(a, b) for a, b in zip(si, oi)]
-        return z3.And(*cs) if cs else z3.BoolVal(True)
+        return z_and(_char_eq(a, b) for a, b in zip(si, oi))
 
     def __eq__(s, o):
         if not isinstance(o, (str, SxStr, SxChar)):
@@ -1283,11 +1320,16 @@ def _case_code(ch, f):
         raise Unsupported("case mapping of a non-ASCII symbolic character")
     c = ch.idx
     if f is str.lower:
-        up = (c >= 65) & (c <= 90) if not isinstance(c >= 65, bool) else None
-        isup = z3.And(z3bool(c >= 65), z3bool(c <= 90))
-        return SxChar(None, sym_ite(SxBool(isup), c + 32, c))
-    islow = z3.And(z3bool(c >= 97), z3bool(c <= 122))
-    return SxChar(None, sym_ite(SxBool(islow), c - 32, c))
+        isup = (c >= 65) & (c <= 90) if not isinstance(c >= 65, bool) and not isinstance(c <= 90, bool) \
+            else ((c >= 65) and (c <= 90))
+        if isinstance(isup, bool):
+            return SxChar(None, c + 32 if isup else c)
+        return SxChar(None, sym_ite(isup, c + 32, c))
+    islow = (c >= 97) & (c <= 122) if not isinstance(c >= 97, bool) and not isinstance(c <= 122, bool) \
+        else ((c >= 97) and (c <= 122))
+    if isinstance(islow, bool):
+        return SxChar(None, c - 32 if islow else c)
+    return SxChar(None, sym_ite(islow, c - 32, c))
 
 
 def _items(p):
@@ -1369,7 +1411,7 @@ def eq_term(a, b):
             return False
         if isinstance(a, SxStr) and not isinstance(b, (str, SxStr, SxChar)):
             return False
-        e = z3.simplify(a.eq_expr(b))
+        e = a.eq_expr(b)
         return True if z3.is_true(e) else False if z3.is_false(e) else e
     if isinstance(a, (SxInt, SxBool)) or isinstance(b, (SxInt, SxBool)):
         if isinstance(a, (bool, SxBool)) or isinstance(b, (bool, SxBool)):
